@@ -97,15 +97,41 @@ Definition SOP_BY_UID : list (string * uid_entry) := insert_all u_uid SOP_CLASSE
 Definition sop_by_keyword (s : string) : option uid_entry := assoc s SOP_BY_KEYWORD.
 Definition sop_by_uid (s : string) : option uid_entry := assoc s SOP_BY_UID.
 
-(** Correspondence cases: the query and what the real dictionary answered. *)
+(** Correspondence cases: the query and what the real dictionary answered.
+    Answers are normally coded (shards parse much faster): 0 = None, 1 = the generic group
+    length entry, 2 = the generic private creator entry, 3 + i = row i of [ENTRIES]
+    (for SOP classes: 0 = None, 1 + i = row i of [SOP_CLASSES]); the harness uses a code only
+    when the returned entry is field-by-field equal to that row, else the explicit form. *)
+Definition ROW_INDEX : PM.t entry :=
+  fst (fold_left (fun mi en => (PM.add (key (snd mi)) en (fst mi), snd mi + 1)) ENTRIES (PM.empty entry, 0)).
+Definition SOP_ROW_INDEX : PM.t uid_entry :=
+  fst (fold_left (fun mi u => (PM.add (key (snd mi)) u (fst mi), snd mi + 1)) SOP_CLASSES (PM.empty uid_entry, 0)).
+(* [None] = a code that names no row *)
+Definition decode_answer (c : N) : option (option entry) :=
+  if c =? 0 then Some None
+  else if c =? 1 then Some (Some GROUP_LENGTH_ENTRY)
+  else if c =? 2 then Some (Some PRIVATE_CREATOR_ENTRY)
+  else match PM.find (key (c - 3)) ROW_INDEX with Some en => Some (Some en) | None => None end.
+Definition decode_sop_answer (c : N) : option (option uid_entry) :=
+  if c =? 0 then Some None
+  else match PM.find (key (c - 1)) SOP_ROW_INDEX with Some u => Some (Some u) | None => None end.
+
 Inductive case :=
-| ByTag (g e : N) (r : option entry)
+| T (tag code : N)                         (* by_tag, coded answer; tag = group * 65536 + element *)
+| Nm (s : string) (code : N)               (* by_name, coded answer *)
+| SU (s : string) (code : N)               (* SOP class by_uid, coded answer *)
+| SK (s : string) (code : N)               (* SOP class by_keyword, coded answer *)
+| ByTag (g e : N) (r : option entry)       (* explicit forms *)
 | ByName (s : string) (r : option entry)
 | SopUid (s : string) (r : option uid_entry)
 | SopKw (s : string) (r : option uid_entry).
 
 Definition check_case (c : case) : bool :=
   match c with
+  | T t code => match decode_answer code with Some r => opt_eqb entry_eqb (by_tag (tag_group t) (tag_elem t)) r | None => false end
+  | Nm s code => match decode_answer code with Some r => opt_eqb entry_eqb (by_name s) r | None => false end
+  | SU s code => match decode_sop_answer code with Some r => opt_eqb uid_entry_eqb (sop_by_uid s) r | None => false end
+  | SK s code => match decode_sop_answer code with Some r => opt_eqb uid_entry_eqb (sop_by_keyword s) r | None => false end
   | ByTag g e r => opt_eqb entry_eqb (by_tag g e) r
   | ByName s r => opt_eqb entry_eqb (by_name s) r
   | SopUid s r => opt_eqb uid_entry_eqb (sop_by_uid s) r
